@@ -924,7 +924,39 @@ def check_refused_component(ctx):
                           f'add_component of a second component was refused, yet the times changed from {before} to {after}')
 
 
+EXTRA_ALARM_LINES = ['PROXIMITY:ARRIVE', 'PROXIMITY:DEPART', 'X-WR-ALARMUID:6B5A', 'UID:alarm-1', 'RELATED-TO;RELTYPE=SNOOZE:alarm-0',
+                     'DESCRIPTION:text', 'SUMMARY:s', 'ATTENDEE:mailto:a@example.com', 'ACTION:AUDIO', 'ACTION:X-LOCATE', 'X-APPLE-PROXIMITY:ARRIVE',
+                     'BEGIN:VLOCATION\r\nUID:loc\r\nEND:VLOCATION', 'X-MOZ-LASTACK:20240101T000000Z', 'CLASS:PUBLIC']
+
+
+def check_other_alarm_properties(ctx):
+    """the computed times depend on TRIGGER, REPEAT, DURATION and the component's times - on nothing else an alarm may carry
+    (RFC 9074 PROXIMITY, UID, RELATED-TO, a nested VLOCATION, client extensions): the same alarm with one more line gives the
+    same times, and every alarm with a TRIGGER gives at least one"""
+    import icalendar
+    base = ('BEGIN:VEVENT\r\nUID:e\r\nDTSTART:20240305T100000Z\r\nDTEND:20240305T120000Z\r\n'
+            'BEGIN:VALARM\r\nACTION:DISPLAY\r\nTRIGGER:-PT15M\r\nEND:VALARM\r\n'
+            'BEGIN:VALARM\r\n%sTRIGGER;RELATED=END:PT5M\r\nREPEAT:2\r\nDURATION:PT10M\r\nEND:VALARM\r\n'
+            'BEGIN:VALARM\r\n%sTRIGGER;VALUE=DATE-TIME:20240305T090000Z\r\nEND:VALARM\r\nEND:VEVENT\r\n')
+
+    def times(text):
+        ev = icalendar.Event.from_ical(text)
+        return sorted(t.trigger for t in ev.alarms.times)
+    want = times(base % ('', ''))
+    for line in EXTRA_ALARM_LINES:
+        ctx.evaluated(('other-alarm-property', line))
+        text = base % (line + '\r\n', line + '\r\n')
+        try:
+            got = times(text)
+        except Exception as e:  # noqa: BLE001
+            ctx.violation('other-alarm-property', {'ics': text}, f'computing the times raised {type(e).__name__}: {e}', None)
+            continue
+        if got != want:
+            ctx.violation('other-alarm-property', {'ics': text}, f'with the line {line!r} in two of the alarms the times are {got}, without it {want}', None)
+
+
 def oracle(ctx):
+    check_other_alarm_properties(ctx)
     check_alarms_independent(ctx)
     check_refused_component(ctx)
     light = not ctx.escalate and ctx.tier == 'quick'
